@@ -612,4 +612,5 @@ func generate() {
 	liftDirected(g.Fork())
 	wideCases(g.Fork())
 	directCases(g.Fork()) // precomp / split / rsh_x tied directly (direct.go)
+	apiCases(g.Fork())    // BaseMultiply / BaseMultiplyAdd / Multiply / ParsePubkey on byte strings (api.go)
 }
